@@ -871,6 +871,8 @@ READONLY_METHODS = {
     "core::slice::<impl [T]>::is_empty", "core::slice::<impl [T]>::last", "core::slice::<impl [T]>::first",
     "core::option::Option::as_ref", "core::option::Option::unwrap_or", "core::fmt::Debug::fmt",
     "core::cmp::PartialEq::eq", "core::cmp::PartialEq::ne", "core::slice::<impl [T]>::contains",
+    # by-value adapters: called on a field place they can only copy it (moving out of a borrowed field does not compile)
+    "core::option::Option::map", "core::option::Option::map_or", "core::option::Option::unwrap_or_default",
 }
 
 
